@@ -913,6 +913,8 @@ __CPROVER_ensures(BT_HS_IN_SETUP(s) ==> (xv_hs_calls == 1 && xv_hs_ssl == XV_SSL
 __CPROVER_ensures(__CPROVER_return_value == 0 ==> (BT_SETUP_OK(s) && xv_hs_calls == 1))
 /* PO[C02] btls_connect.bio_attached */
 __CPROVER_ensures(__CPROVER_return_value == 0 ==> BT_BIO_ATTACHED(s))
+/* PO[C02] btls_connect.partial_write_mode: the SSL runs with ENABLE_PARTIAL_WRITE|ACCEPT_MOVING_WRITE_BUFFER, without which a refused SSL_write (EAGAIN reported) may already have put bytes of the call on the wire */
+__CPROVER_ensures(BT_HS_IN_SETUP(s) ==> ((xv_ssl_mode & (SSL_MODE_ENABLE_PARTIAL_WRITE | SSL_MODE_ACCEPT_MOVING_WRITE_BUFFER)) == (SSL_MODE_ENABLE_PARTIAL_WRITE | SSL_MODE_ACCEPT_MOVING_WRITE_BUFFER) && xv_ssl_set_mode_calls >= 1))
 /* PO[C09] btls_connect.success_exact_policy */
 __CPROVER_ensures(__CPROVER_return_value == 0 ==> BT_SETUP_EXACT(s))
 /* PO[C09] btls_connect.success_only_valid_policy */
@@ -940,6 +942,8 @@ __CPROVER_ensures(BT_HS_IN_SETUP(conn_s) ==> (xv_hs_calls == 1 && xv_hs_ssl == X
 __CPROVER_ensures(__CPROVER_return_value == 0 ==> (BT_SETUP_OK(conn_s) && xv_hs_calls == 1))
 /* PO[C02] btls_accept.bio_attached */
 __CPROVER_ensures(__CPROVER_return_value == 0 ==> BT_BIO_ATTACHED(conn_s))
+/* PO[C02] btls_accept.partial_write_mode */
+__CPROVER_ensures(BT_HS_IN_SETUP(conn_s) ==> ((xv_ssl_mode & (SSL_MODE_ENABLE_PARTIAL_WRITE | SSL_MODE_ACCEPT_MOVING_WRITE_BUFFER)) == (SSL_MODE_ENABLE_PARTIAL_WRITE | SSL_MODE_ACCEPT_MOVING_WRITE_BUFFER) && xv_ssl_set_mode_calls >= 1))
 /* PO[C09] btls_accept.success_exact_policy */
 __CPROVER_ensures(__CPROVER_return_value == 0 ==> BT_SETUP_EXACT(conn_s))
 /* PO[C09] btls_accept.success_only_valid_policy */
